@@ -124,9 +124,13 @@ def near(x, ref, n):
 
 
 def near_inc(x, ref, bal):
-    """one increment: abs 1e-9 * |balance| (money identity scale)"""
+    """one increment: rel 1e-9 of the increment plus the float resolution of (1+cagr)**years - 1 on the balance
+    (1e-14 * |balance| * growth factor, some 20 ulps): tight enough to see an error in the elapsed time of a short
+    interval, which the money-identity scale 1e-9 * |balance| would hide."""
     x = float(x)
-    return math.isfinite(x) and abs(Decimal(x) - ref) <= REL * abs(bal)
+    bal = abs(bal)
+    growth = Decimal(1) + (abs(ref) / bal if bal else Decimal(0))
+    return math.isfinite(x) and abs(Decimal(x) - ref) <= REL * abs(ref) + Decimal("1e-14") * bal * growth
 
 
 # ------------------------------------------------------------------------------- building brokers
@@ -739,6 +743,9 @@ def gap_lists(draw, lo, hi):
     room = total - k
     s = sum(raw)
     gaps = [1 + (room * x) // s for x in raw]
+    if draw(st.sampled_from([False, True])):
+        # sub-second parts (dyadic fractions of a second, exact in binary and in the microsecond clock)
+        gaps = [g + draw(st.sampled_from([0, 0.5, 0.25, 0.75, 0.125])) for g in gaps]
     return gaps
 
 
